@@ -29,7 +29,8 @@ def knapsack_pricing(
 
     # Scale to integers for DP
     scale = 100
-    cap_int = int(capacity * scale + 0.5)
+    # Truncate: rounding the capacity up (30.9951 -> 31.00) lets the DP build a pattern that is too wide
+    cap_int = int(capacity * scale + 1e-9)
     sizes_int = [max(1, int(sizes[i] * scale + 0.5)) for i in range(n)]
 
     # dp_val[w] = best value at weight w, dp_pat[w] = pattern achieving it
